@@ -375,6 +375,9 @@ func (t *FnTrans) applyContract(ct *Contract, key string, callee *ssa.Function, 
 		// a callee that needs a lock free takes and releases it itself
 		t.tpEvent(lc, true, true)
 	}
+	if callee == nil {
+		t.checkGuardedGlobals(ct, env, short, nth)
+	}
 	t.checkCallbackArgs(ct, key, short, nth, pn, args, argTypes, env.pkg)
 	if ct.PanicsIf != nil {
 		// the callee panics exactly under its declared condition (pre-state): that is a panic of the
@@ -1464,4 +1467,53 @@ func (t *FnTrans) freshObjectHavoc(ct *Contract, env *Env, pre *State) {
 // cbresName: the uninterpreted function standing for the result of a pure callback of the given argument / result sorts
 func cbresName(argSorts []string, res string) string {
 	return q("cbres$" + mangle(strings.Join(argSorts, ",")+"->"+res))
+}
+
+// checkGuardedGlobals: a call through an interface or function value whose contract modifies a ghost global that a
+// monitor guards (`guards global:x`) changes that model state on behalf of the caller: the caller must hold the monitor
+// lock (of some object of the guarding type) in write mode.
+func (t *FnTrans) checkGuardedGlobals(ct *Contract, env *Env, short string, nth int) {
+	if t.noGuardCheck || env.pkg == nil {
+		return
+	}
+	for _, m := range ct.Modifies {
+		if m.E.Op != "call" || m.E.Name != "ghost" || len(m.E.Args) != 1 || m.E.Args[0].Op != "id" {
+			continue
+		}
+		gname := m.E.Args[0].Name
+		pkg := env.pkg.Path()
+		if _, ok := t.eng.specs.Ghosts[pkg+"."+gname]; !ok {
+			continue
+		}
+		for name, ts := range t.eng.specs.Types {
+			if !strings.HasPrefix(name, pkg+".") || name != t.recvTypeName() {
+				continue // only methods of the guarding type act on its behalf (other users of the same model state are not its clients)
+			}
+			for _, mo := range ts.Monitors {
+				for _, g := range mo.Guards {
+					if g != "global:"+gname || mo.Atomic {
+						continue
+					}
+					lc := t.comp("L."+tshort(name)+"."+mo.Lock, "(Array Int Int)")
+					goal := fmt.Sprintf("(exists ((gg$r Int)) (= (select %s gg$r) 2))", t.get(lc))
+					t.obligeNamed(fmt.Sprintf("guard.global.%s.%s.%d", gname, short, nth), "guard", goal, sprintf("%s changes the model state %s, which %s.%s guards: the lock must be held", short, gname, tshort(name), mo.Lock))
+				}
+			}
+		}
+	}
+}
+
+// recvTypeName: the (origin) named type whose method - or closure inside a method - this function is, "" otherwise
+func (t *FnTrans) recvTypeName() string {
+	f := t.fn
+	for f.Parent() != nil {
+		f = f.Parent()
+	}
+	if f.Signature.Recv() == nil {
+		return ""
+	}
+	if n, ok := derefNamed(f.Signature.Recv().Type()); ok {
+		return typeName(n.Origin())
+	}
+	return ""
 }
